@@ -13,7 +13,7 @@ def extra(ctx):
     ok, exe, log = vlib.build_harness("pipeline")
     if not ok:
         return {"lines": ["HARNESS-ERROR pipeline harness does not build: " + log.strip()[-600:]], "stats": stats}
-    n = {"quick": 500, "thorough": 20000}[ctx["tier"]]
+    n = {"quick": 500, "thorough": 6000}[ctx["tier"]]
     outdir = os.path.join(ctx["outdir"], "pipeline")
     rc, out, trace, hstats = vlib.run_harness_once(exe, {"id": "Pipeline"}, ctx["tier"], ctx["seed"], "check", n, outdir, timeout=1500)
     hl = out.split("\n")
